@@ -105,7 +105,8 @@ func (w *World) boxArr(t types.Type) *ArrInfo {
 
 func (w *World) mapArrs(m *types.Map) (dom, val *ArrInfo) {
 	ks, vs := w.S.SortOf(m.Key()), w.S.SortOf(m.Elem())
-	n := sanitize(ks) + "!" + sanitize(vs)
+	// one array family per Go map type (key and element types by identity): maps of different static types never alias
+	n := w.typeKey(m.Key()) + "!" + w.typeKey(m.Elem())
 	mvArr := w.heapArr("Mv!"+n, "(Array Int (Array "+ks+" "+vs+"))")
 	if vs == "Int" {
 		// the value family is shared by all Int-sorted value types: references only if this map type holds references
@@ -118,6 +119,48 @@ func (w *World) mapArrs(m *types.Map) (dom, val *ArrInfo) {
 		}
 	}
 	return w.heapArr("Md!"+n, "(Array Int (Array "+ks+" Bool))"), mvArr
+}
+
+// typeKey is a deterministic, readable name of a Go type, injective on the types met in one run.
+func (w *World) typeKey(t types.Type) string {
+	t = types.Unalias(t)
+	switch u := t.(type) {
+	case *types.Named:
+		full := u.String()
+		if _, isStruct := u.Underlying().(*types.Struct); isStruct {
+			full = structKey(u)
+		}
+		short := full
+		if i := strings.LastIndex(short, "/"); i >= 0 {
+			if j := strings.LastIndex(short[:i], "/"); j >= 0 {
+				short = short[j+1:]
+			}
+		}
+		short = sanitize(strings.ReplaceAll(short, "/", "_"))
+		if w.typeKeys == nil {
+			w.typeKeys = map[string]string{}
+		}
+		if prev, ok := w.typeKeys[short]; ok && prev != full {
+			panic("type name collision in heap array naming: " + prev + " vs " + full)
+		}
+		w.typeKeys[short] = full
+		return short
+	case *types.Pointer:
+		return "P" + w.typeKey(u.Elem())
+	case *types.Slice:
+		return "S" + w.typeKey(u.Elem())
+	case *types.Array:
+		return "A" + w.typeKey(u.Elem())
+	case *types.Map:
+		return "M" + w.typeKey(u.Key()) + "_" + w.typeKey(u.Elem())
+	case *types.Basic:
+		return sanitize(u.Name())
+	case *types.Struct:
+		if c, ok := structCanon[u]; ok {
+			return sanitize(c)
+		}
+	}
+	return sanitize(w.S.SortOf(t))
 }
 
 func (w *World) ghostArr(g *GhostField, ctx *ResCtx) *ArrInfo {
@@ -221,6 +264,7 @@ type Env struct {
 	vars    map[string]binding
 	ctx     *ResCtx
 	pre     *HeapState // heap at loop entry (loop invariants only)
+	prev    *HeapState // state before the call (after-call assertions only)
 	seen    string // term of the current loop's seen array (or "")
 	seenKey *SType
 	depth   int
@@ -568,6 +612,14 @@ func (e *Env) evalCall(x *ECall) (string, *SType) {
 		ne := *e
 		ne.cur = e.old
 		return ne.Eval(x.Args[0])
+	case "prev":
+		// prev(e): e in the state just before the call an `after call N` assertion is attached to
+		if e.prev == nil {
+			e.fail("prev() is only available in `after call N` assertions")
+		}
+		ne := *e
+		ne.cur = e.prev
+		return ne.Eval(x.Args[0])
 	case "pre":
 		if e.pre == nil {
 			e.fail("pre() is only available in loop invariants")
@@ -660,6 +712,13 @@ func (e *Env) evalCall(x *ECall) (string, *SType) {
 		}
 		md, _ := e.w.mapArrs(m)
 		return "(select " + e.arr(md, e.cur) + " " + t + ")", &SType{Set: &SType{Go: m.Key()}}
+	case "seencount":
+		if e.seen == "" {
+			e.fail("seencount() outside a map-range loop invariant")
+		}
+		ks := S.SortOf(e.seenKey.Go)
+		e.vc.needCard(ks)
+		return "(card!" + sanitize(ks) + " " + e.seen + ")", stInt
 	case "seen":
 		if e.seen == "" {
 			e.fail("seen() outside a map-range loop invariant")
@@ -726,13 +785,20 @@ func (e *Env) evalCall(x *ECall) (string, *SType) {
 				t = e.zeroLike(pt)
 			}
 			if len(t) > 24 {
-				n := fmt.Sprintf("a!%s!%d", fd.Params[i].Name, e.vc.fresh())
-				lets = append(lets, "("+n+" "+t+")")
-				t = n
+				if e.record == nil && strings.Contains(t, "(ite ") && e.vc.groundTerm(t) {
+					// a ground argument with a conditional: name it by a constant (z3 rejects patterns that contain
+					// 'ite', also after let-expansion), defined by an equation added to every query that mentions it
+					t = e.vc.defConst("d!"+fd.Params[i].Name, pt.Sort(S), t)
+				} else {
+					n := fmt.Sprintf("a!%s!%d", fd.Params[i].Name, e.vc.fresh())
+					lets = append(lets, "("+n+" "+t+")")
+					e.vc.letVars[n] = true
+					t = n
+				}
 			}
 			vars[fd.Params[i].Name] = binding{term: t, typ: pt}
 		}
-		ne := &Env{w: e.w, vc: e.vc, cur: e.cur, old: e.old, pre: e.pre, vars: vars, ctx: fctx, seen: e.seen, depth: e.depth + 1, record: e.record, inTrigger: e.inTrigger}
+		ne := &Env{w: e.w, vc: e.vc, cur: e.cur, old: e.old, pre: e.pre, vars: vars, ctx: fctx, seen: e.seen, seenKey: e.seenKey, depth: e.depth + 1, record: e.record, inTrigger: e.inTrigger, prev: e.prev}
 		body, _ := ne.Eval(fd.Body)
 		if len(lets) > 0 {
 			body = "(let (" + strings.Join(lets, " ") + ") " + body + ")"
